@@ -43,7 +43,7 @@ def c03_multisig(tier='quick', seed=0):
 
     def assume_all(ip, f, args):
         for _, c in ip.clauses(ip.call_ast(reg.side_ast(f), args, {})):
-            ip.ctx.assume(c)
+            ip.ctx.assume(ip.cval(c))
 
     # ---- (2) abs-sound
     def build_abs_sound(ip, mk):
@@ -99,7 +99,8 @@ def c03_multisig(tier='quick', seed=0):
             al = z3.BV2Int(allowed)
             cache0 = snapshot({'cache': cache})['cache']
             from pyvc import vocab
-            V = [[zbool(ip.truth(ip.call(vocab.defined, ['sig_valid', sig_valid, cache0, al, keys[j], sigs[i]], {})))
+            sf0 = ip.call(vocab.restrict_str, [cache0, O2.SIGFIELDS], {})
+            V = [[zbool(ip.truth(ip.call(vocab.defined, ['sig_valid', sig_valid, sf0, al, keys[j], sigs[i]], {})))
                   for j in range(n)] for i in range(m)]
             try:
                 ip.call(F.OP_CHECK_MULTISIG, [tape, stack, cache], {})
